@@ -121,6 +121,7 @@ def render(t, role):
     return k
 
 
+OCC_VOCAB = ("occurs_check", "post_order_iter", "reassign_non_complete", "get", "unit", "sum", "product", "next")
 ARROW_VOCAB = ("for_case", "for_disconnect", "free", "sum", "product", "unit", "two_two_n", "unify", "bind_product", "bind_sum", "check_eq",
                "shallow_clone", "to_type", "source_ty", "target_ty")
 _FACTS = [None]
@@ -282,6 +283,7 @@ def run(ctx, rep):
                 continue
             if name == "disconnect":
                 # delegations to for_disconnect
+                f = F.inlined(f, ARROW_VOCAB)   # a private constructor helper for the placeholder arrow is spliced in
                 T = Terms(f)
                 T.site_names = {"free"}
                 hc = [cs for cs in f.calls() if cs.name in ("for_disconnect", "disconnect")]
@@ -367,6 +369,7 @@ def run(ctx, rep):
         if f is None:
             rep.anchor("C04.occurs", path)
             continue
+        f = F.inlined(f, OCC_VOCAB)   # the iteration may live in a private helper the function was split into
         oc = [cs for cs in f.calls() if cs.name == "occurs_check"]
         it = [cs for cs in f.calls() if cs.name == "post_order_iter"]
         if not oc or not it:
@@ -401,7 +404,8 @@ def run(ctx, rep):
                     rep.ok("C04.occurs", "from_bound_ref: shared traversal", ga[-60:])
     f = F.fn("simplicity::types::Type::<'brand>::finalize")
     if f is not None:
-        _writeback(F, rep, F.inlined(f, ("reassign_non_complete", "get", "unit", "sum", "product", "next")))
+        f = F.inlined(f, OCC_VOCAB)
+        _writeback(F, rep, f)
     if f is not None:
         okk = False
         for b, si in enum_switches(f, "types::Bound"):
